@@ -45,7 +45,23 @@ RULE = ('masks: circle (centred/off-centre), hexagon (both orientations, shifted
 
 TOL = 1e-8
 COND_MAX = 1e3
-STATS = {'skipped_ill_conditioned': 0, 'generated': 0}
+STATS = {'skipped_ill_conditioned': 0, 'generated': 0, 'oracle_only_over_model_budget': 0}
+# Exact rational arithmetic on the extracted (inductive) integers is slow: the solution of a k-mode fit has
+# about 60(2k+1)-bit numerators and denominators and every operation normalises with a binary gcd.  Cases whose
+# estimated model cost exceeds the budget are decided by the direct oracle only (counted in the evidence).
+MODEL_BUDGET_S = {'quick': 2.5, 'thorough': 6.0}
+_tier = ['quick']
+
+
+def model_cost(c):
+    """rough estimate (seconds) of the extracted model's run time"""
+    if c['op'] == 'compose' or (c.get('expect_error') and c.get('opd_shape') != 'transposed'):
+        return 0.1
+    k = len(c['modes'])
+    npix = sum(1 for row in c['mask'] for v in row if fr(v) != 0)
+    bits = 60.0 * (2 * k + 1)
+    ops = k ** 3 + (2 * npix * k if c['op'] == 'remove' and not c.get('opd_shape') else 0)
+    return (bits / 600.0) ** 2 * 0.03 * ops
 _prep_cache = {}
 
 
@@ -127,14 +143,16 @@ def masked_basis(c, p, modes, nrm):
 
 
 # ------------------------------------------------------------------ generator
-def gen_mask(rng, tiny):
+def gen_mask(rng, size):
+    """size: 'tiny' (4..5), 'small' (6..9) or 'large' (10..16)"""
     lentil = C.import_lentil()
     for _ in range(50):
-        if tiny:
+        if size == 'tiny':
             n, m = rng.randint(4, 5), rng.randint(4, 5)
             kind = rng.choice(['circle', 'circle_off', 'full'])
         else:
-            n, m = rng.randint(6, 16), rng.randint(6, 16)
+            lo, hi = (6, 9) if size == 'small' else (10, 16)
+            n, m = rng.randint(lo, hi), rng.randint(lo, hi)
             kind = rng.choice(['circle', 'circle_off', 'hexagon', 'hexagon', 'hexseg', 'segment', 'twocircles',
                                'weighted', 'circle_off'])
         if kind == 'full':
@@ -148,15 +166,16 @@ def gen_mask(rng, tiny):
             a = lentil.hexagon((n, m), rng.choice([min(n, m) / 2 - 1, min(n, m) / 3]),
                                shift=(rng.randint(-1, 1), rng.randint(-1, 1)), rotate=rng.random() < 0.5, antialias=False)
         elif kind in ('hexseg', 'segment'):
-            segs = lentil.hex_segments(rings=1, seg_radius=rng.choice([2.5, 3.0]), seg_gap=rng.choice([0.5, 1.0]),
-                                       rotate=rng.random() < 0.5, antialias=False, flatten=False, pad=rng.randint(0, 1))
+            segs = lentil.hex_segments(rings=1, seg_radius=rng.choice([2.0, 2.5] if size == 'small' else [2.5, 3.0]),
+                                       seg_gap=rng.choice([0.5, 1.0]), rotate=rng.random() < 0.5, antialias=False,
+                                       flatten=False, pad=rng.randint(0, 1))
             a = np.sum(segs, axis=0) if kind == 'hexseg' else segs[rng.randrange(len(segs))]
             if max(a.shape) > 16:
                 continue
         elif kind == 'twocircles':
-            m = max(m, 10)
-            r = rng.choice([2.0, 2.5])
-            a = (lentil.circle((n, m), r, shift=(rng.randint(-1, 1), -m // 4), antialias=False)
+            m = max(m, 9)
+            r = rng.choice([1.5, 2.0] if size == 'small' else [2.0, 2.5])
+            a = (lentil.circle((n, m), r, shift=(rng.randint(-1, 1), -(m // 4)), antialias=False)
                  + lentil.circle((n, m), r, shift=(rng.randint(-1, 1), m // 4), antialias=False))
         else:
             a = lentil.circle((n, m), min(n, m) / 2 - 1, antialias=True)
@@ -174,18 +193,21 @@ def rnd_frac(rng):
     return str(Fraction(p, q))
 
 
-def gen_modes(rng, tiny, tier):
+def gen_modes(rng, size, tier):
     t = rng.random()
-    kmax = 2 if tiny else (6 if tier == 'quick' else 9)
-    if not tiny and rng.random() < (0.06 if tier == 'quick' else 0.08):
-        kmax = 15
-    k = rng.randint(1, kmax)
-    top = 4 if tiny else 15
-    k = min(k, top)
+    if size == 'tiny':
+        kmax, top = 2, 4
+    elif size == 'small':
+        kmax, top = 4, 11
+    else:
+        kmax, top = (6 if tier == 'quick' else 9), 15
+        if rng.random() < 0.2:
+            kmax = 15
+    k = min(rng.randint(1, kmax), top)
     if t < 0.2:
         modes = list(range(1, k + 1))
     elif t < 0.3:
-        modes = [rng.choice([2, 3, 4, 6, 11] if not tiny else [2, 3, 4])]
+        modes = [rng.choice([2, 3, 4, 6, 11] if size != 'tiny' else [2, 3, 4])]
     else:
         modes = rng.sample(range(1, top + 1), k)
     return modes
@@ -205,13 +227,16 @@ def well_conditioned(c):
 
 def generate(rng, tier):
     n_cases = 100 if tier == 'quick' else 1500
+    _tier[0] = tier
     out = 0
     tries = 0
     while out < n_cases and tries < 20 * n_cases:
         tries += 1
-        tiny = rng.random() < 0.2
-        kind, mask = gen_mask(rng, tiny)
-        modes = gen_modes(rng, tiny, tier)
+        t = rng.random()
+        size = 'tiny' if t < 0.2 else 'small' if t < 0.65 else 'large'
+        tiny = size == 'tiny'
+        kind, mask = gen_mask(rng, size)
+        modes = gen_modes(rng, size, tier)
         op = rng.choice(['compose', 'fit', 'fit', 'remove', 'remove'])
         c = {'op': op, 'mask_kind': kind, 'mask': mask, 'modes': modes,
              'coeffs': [rnd_frac(rng) for _ in modes]}
@@ -247,6 +272,8 @@ def generate(rng, tier):
             continue
         out += 1
         STATS['generated'] += 1
+        if model_cost(c) > MODEL_BUDGET_S[tier]:
+            STATS['oracle_only_over_model_budget'] += 1
         yield c
 
 
@@ -254,7 +281,8 @@ def classify(c):
     crd = 'crd' if c.get('crd') else 'default'
     k = len(c['modes'])
     kb = '1' if k == 1 else '2-4' if k <= 4 else '5-9' if k <= 9 else '10-15'
-    return f"{c['op']}/{c.get('mask_kind', '?')}/{crd}/k={kb}" + ('/error' if c.get('expect_error') else '')
+    return (f"{c['op']}/{c.get('mask_kind', '?')}/{crd}/k={kb}" + ('/error' if c.get('expect_error') else '')
+            + ('/oracle-only' if not c.get('_corpus') and model_cost(c) > MODEL_BUDGET_S[_tier[0]] else ''))
 
 
 def nontrivial(c):
@@ -262,8 +290,7 @@ def nontrivial(c):
     if c.get('expect_error'):
         return False
     full = all(fr(v) != 0 for row in c['mask'] for v in row)
-    return (len(modes) >= 2 or modes != [1]) and not full and modes != list(range(1, len(modes) + 1)) or \
-        (len(modes) >= 2 and not full)
+    return not full and (len(modes) >= 2 or modes != [1])
 
 
 # ------------------------------------------------------------------ model side
@@ -294,6 +321,8 @@ def enc_table(p, entries, crdflag):
 
 
 def encode(c):
+    if not c.get('_corpus') and model_cost(c) > MODEL_BUDGET_S[_tier[0]]:
+        return None
     p = prep(c)
     crdflag = 1 if c.get('crd') else 0
     modes = list(c['modes'])
@@ -348,7 +377,7 @@ def run_impl(c):
                 y2 = np.fliplr(y) * 0.5 + 1.0
                 res['fit_y2'] = np.asarray(lentil.zernike_fit(y2, mask, modes, nrm, rho, theta), dtype=float)
                 res['fit_comb'] = np.asarray(lentil.zernike_fit(3.0 * y + y2, mask, modes, nrm, rho, theta), dtype=float)
-                junk = y + (mask == 0) * 7.25
+                junk = y + (mask == 0) * 7.25 * (float(np.max(np.abs(y))) or 1.0)
                 res['fit_junk'] = np.asarray(lentil.zernike_fit(junk, mask, modes, nrm, rho, theta), dtype=float)
             return res
         if c['op'] == 'remove':
